@@ -18,7 +18,7 @@ package scalarEstimator
 
 /* -------------------------------------------------------------------------- */
 
-//import   "fmt"
+import   "fmt"
 import   "math"
 
 import . "github.com/pbenner/autodiff/statistics"
@@ -113,6 +113,9 @@ func (obj *GeometricEstimator) updateEstimate() error {
   // compute new parameter
   //////////////////////////////////////////////////////////////////////////////
   p := NewScalar(obj.ScalarType(), math.Exp(sum_g - sum_m))
+  if math.IsNaN(p.GetFloat64()) {
+    return fmt.Errorf("geometric parameter estimation failed (no observation with positive weight)")
+  }
 
   //////////////////////////////////////////////////////////////////////////////
   if t, err := scalarDistribution.NewGeometricDistribution(p); err != nil {
